@@ -51,6 +51,9 @@ where
         should_continue: impl std::ops::Fn() -> bool + Clone,
     ) -> V;
     fn reached_fixed_point(self, old_value: &V, new_value: &V) -> bool;
+    /// True if `reached_fixed_point` holds because the value did not change
+    /// (as opposed to the iteration being cut short).
+    fn unchanged(self, old_value: &V, new_value: &V) -> bool;
     fn error_value(self) -> V;
 }
 
@@ -255,6 +258,14 @@ where
                 std::mem::replace(&mut self.search_graph[dfn].solution, current_answer);
 
             if solver_stuff.reached_fixed_point(&old_answer, &self.search_graph[dfn].solution) {
+                if !solver_stuff.unchanged(&old_answer, &self.search_graph[dfn].solution) {
+                    // The iteration was cut short although our answer still
+                    // changed. The other goals of this cycle were solved
+                    // against the *old* answer, so their results are stale:
+                    // drop them, or they would be promoted to the cache
+                    // together with this goal.
+                    self.search_graph.rollback_to(dfn + 1);
+                }
                 return *minimums;
             }
 
